@@ -315,7 +315,15 @@ META = {
                   'invariant; the boolean forms are still evaluated on every visited state of every DAG instance, evidence model_invariants_static_solver). '
                   'The DFS hypothesis is discharged for ranked graphs (Vpsc/StaticDfs.v, C01_static_total_order_topo / C01_static_no_throw_on_ranked_dag: every '
                   'constraint goes from a lower to a higher rank, ranks <= number of variables - which every finite DAG admits and removeoverlaps\' sets come with). '
-                  'Not proved: any no-throw statement for Solver::refine (split / mergeRight). '
+                  'Solver::refine (Vpsc/StaticRefine.v, still PARTIAL): proved - the closing scan cannot throw from an all-satisfied state and exhausting maxtries is a normal '
+                  'return, so solve() on a DAG returns with every slack >= 0 exactly GIVEN that every refine pass on the trace does (C01_static_solve_no_throw_on_dag_partial, '
+                  'hypothesis passes_ok); the geometry of mergeRight (invariant I2: in-constraints hold and slack(in)+slack(out) >= 0 for every pair; kept by a merge across a most '
+                  'violated out-constraint, C01_static_merge_right_step_geometry) and mergeRight as a whole GIVEN that findMinOutConstraint delivers a most violated '
+                  'out-constraint (C01_static_merge_right_all_sat_partial, hypothesis mr_roots_ok). Not proved: the out-heap order invariant, the mergeLeft half of '
+                  'Blocks::split (pair invariant J under a merge with the not-yet-optimal right half), Block::split / findMinLM. The candidate invariants are evaluated '
+                  'as booleans on every split of every DAG solve() instance (Vpsc/StaticRefB.v, driver line r, checked in vlib/c01lib.eval_corr_static): I2 / J / root-min / '
+                  'all-sat-after-split hold on every visited state; the naive ones (mergeLeft(l) leaves everything satisfied, nothing moves right in mergeLeft / left in '
+                  'mergeRight) are false on reachable states and are only recorded. '
                   'Weight histories: the block-statistics invariant (all_ok) is not proved for them (stale sums in deleted blocks); its weight-independent part '
                   '(A2 > 0, posn = (AD-AB)/A2) is evaluated on every visited model state (all_invb_w).',
     'technique': 'Coq proof of verified oracles and model invariants + extracted-model correspondence against libvpsc and libavoid/vpsc.cpp',
